@@ -10,7 +10,7 @@ RULE = ("programs biased to textually identical gate statements in different sco
         "is inconclusive). non-trivial = program has a name collision or a twin; distinct = S-expression")
 ASSUMPTIONS = ["lexical binding rules as implemented in core_from_sx: parameters shadow header names inside the macro body only"]
 TIERS = {"quick": {"shards": 8, "budget_s": 45}, "thorough": {"shards": 16, "budget_s": 360}}
-REQUIRE = {"memo-hits": 500, "memo-hits-across-scopes": 50, "shadowing-programs": 300, "twin-programs": 300,
+REQUIRE = {"route:build-lists": 300, "route:text": 300, "memo-hits": 500, "memo-hits-across-scopes": 50, "shadowing-programs": 300, "twin-programs": 300,
            "metamorphic-pairs": 200}
 
 MEMO = {"hits": 0, "cross": 0, "calls": 0}
@@ -66,7 +66,14 @@ def judge(case):
         m_mac = M.macro_meanings(km)
     except M.MeaningError as ex:
         return "skipped:model-invalid:" + ex.kind, [], None
-    o = lib.outcome(lib.parse, sx.to_text(prog))
+    route = case.get("route", "text")
+    if route == "build-lists":
+        # the documented S-expression API accepts lists as well as tuples (e.g. after a JSON round trip)
+        o = lib.outcome(lib.build, to_lists(prog))
+    elif route == "build-tuples":
+        o = lib.outcome(lib.build, prog)
+    else:
+        o = lib.outcome(lib.parse, sx.to_text(prog))
     if o[0] != "ok":
         return "skipped:input-rejected:" + o[1], [], None
     c = o[1]
@@ -96,6 +103,12 @@ def judge(case):
         except M.MeaningError as ex:
             fails.append(("parsed-circuit-has-no-meaning:" + ex.kind, {"error": str(ex)}))
     return "ok", fails, {"c": c, "kc": kc}
+
+
+def to_lists(x):
+    if isinstance(x, tuple):
+        return [to_lists(v) for v in x]
+    return x
 
 
 def _clauses(case):
@@ -184,7 +197,8 @@ def process(ctx, case, seen):
     shadow = any(s[0] == "macro" and set(s[2:-1]) & letnames for s in prog[1:])
     gates = [g for _p, g in statements_with_paths(prog)]
     twin = len(gates) != len(set(gates))
-    rec.case(prog, nontrivial=shadow or twin)
+    rec.case([prog, case.get("route", "text")], nontrivial=shadow or twin)
+    rec.count("route:" + case.get("route", "text"))
     if st != "ok":
         rec.count(":".join(st.split(":")[:3]))
         if st.startswith("inconclusive"):
@@ -205,9 +219,11 @@ def process(ctx, case, seen):
         if seen[key] > 2:
             rec.count("unminimised-repeat:" + clause)
             continue
-        small = minimise.minimise(prog, lambda p: clause in _clauses({"prog": p}), budget=250)
-        d2 = [x for x in judge({"prog": small})[1] if x[0] == clause]
-        rec.violation(sig("C07", clause, prog_features(small)), d2[0][1] if d2 else detail, {"prog": small})
+        route = case.get("route", "text")
+        small = minimise.minimise(prog, lambda p: clause in _clauses({"prog": p, "route": route}), budget=250)
+        d2 = [x for x in judge({"prog": small, "route": route})[1] if x[0] == clause]
+        rec.violation(sig("C07", clause + ("" if route == "text" else ":" + route), prog_features(small)),
+                      d2[0][1] if d2 else detail, {"prog": small, "route": route})
     if twin and not fails:
         metamorphic(ctx, prog)
 
@@ -216,7 +232,7 @@ def shard(ctx):
     rec = ctx.rec
     monitors.install_contracts()
     wrap_memo()
-    n = ctx.scale(5000, 200000)
+    n = ctx.scale(40000, 200000)
     seen = {}
     i = 0
     while i < n and not rec.expired():
@@ -227,7 +243,7 @@ def shard(ctx):
                         body_len=(2, 6), block_len=(1, 4), wild_numbers=False, p_let_index=0.5, p_let_arg=0.5,
                         reg_size=(2, 4), allow_sub=rng.random() < 0.3)
         prog = g.program()
-        process(ctx, {"prog": prog}, seen)
+        process(ctx, {"prog": prog, "route": rng.choice(["text", "text", "build-lists", "build-tuples"])}, seen)
         if i <= 3:
             rec.sample({"text": sx.to_text(prog)})
     monitors.report_contracts(rec)
@@ -236,9 +252,10 @@ def shard(ctx):
 def replay(ctx, case):
     wrap_memo()
     prog = case_prog(case)
-    st, fails, info = judge({"prog": prog})
+    route = case.get("route", "text")
+    st, fails, info = judge({"prog": prog, "route": route})
     for clause, detail in fails:
-        ctx.rec.violation(sig("C07", clause, prog_features(prog)), detail, case)
+        ctx.rec.violation(sig("C07", clause + ("" if route == "text" else ":" + route), prog_features(prog)), detail, case)
     if "removed_path" in case:
         ctx.rng.seed(0)
         metamorphic(ctx, prog)
